@@ -25,7 +25,7 @@ inductive ScopeKind where
   | module | function | class_
   deriving DecidableEq, Repr, Inhabited
 
-structure Env where
+structure SEnv where
   kind : ScopeKind
   /-- the names bound in this scope -/
   bound : List Str
@@ -34,21 +34,21 @@ structure Env where
   deriving Repr, Inhabited
 
 /-- what a function nested in this scope sees as its enclosing function names -/
-def Env.visible (env : Env) : List Str :=
+def SEnv.visible (env : SEnv) : List Str :=
   match env.kind with
   | .function => env.bound ++ env.encl
   | _ => env.encl
 
-def Env.isGlobal (env : Env) (id : Str) : Bool :=
+def SEnv.isGlobal (env : SEnv) (id : Str) : Bool :=
   match env.kind with
   | .module => true
   | _ => !env.bound.contains id && !env.encl.contains id
 
-def Env.child (env : Env) (kind : ScopeKind) (bound : List Str) : Env := ⟨kind, bound, env.visible⟩
+def SEnv.child (env : SEnv) (kind : ScopeKind) (bound : List Str) : SEnv := ⟨kind, bound, env.visible⟩
 
-def moduleEnv : Env := ⟨.module, [], []⟩
+def moduleEnv : SEnv := ⟨.module, [], []⟩
 
-def pyOps : NameOps Env where
+def pyOps : NameOps SEnv where
   dec := fun env id => !env.isGlobal id
   push := fun env ns => env.child .function ns
 
@@ -57,7 +57,7 @@ def importBinds : Str × Option Str → Str
   | (n, none) => n.takeWhile (· != '.')
   | (_, some a) => a
 
-def optName : Option Str → List Str
+def handlerBinds : Option Str → List Str
   | none => []
   | some n => [n]
 
@@ -74,7 +74,7 @@ def bindsS : PyStmt → List Str
   | .for_ t _ b o => targetNames t ++ (bindsB b ++ bindsB o)
   | .with_ items b => (items.map fun i => targetNamesO i.2).flatten ++ bindsB b
   | .try_ b hs o f => bindsB b ++ (bindsB hs ++ (bindsB o ++ bindsB f))
-  | .handler _ n b => optName n ++ bindsB b
+  | .handler _ n b => handlerBinds n ++ bindsB b
   | .functionDef name _ _ _ _ _ _ _ _ _ => [name]
   | .classDef name _ _ _ _ _ => [name]
   | _ => []
@@ -83,13 +83,13 @@ def bindsB : List PyStmt → List Str
   | s :: ss => bindsS s ++ bindsB ss
 end
 
-def specItems (env : Env) : List (PyExpr × Option PyExpr) → List (PyExpr × Option PyExpr)
+def specItems (env : SEnv) : List (PyExpr × Option PyExpr) → List (PyExpr × Option PyExpr)
   | [] => []
   | (c, none) :: r => (ml pyOps env c, none) :: specItems env r
   | (c, some v) :: r => (ml pyOps env c, some (mlT pyOps env v)) :: specItems env r
 
 mutual
-def specS (env : Env) : PyStmt → PyStmt
+def specS (env : SEnv) : PyStmt → PyStmt
   | .expr e => .expr (ml pyOps env e)
   | .assign ts v => .assign (mlTL pyOps env ts) (ml pyOps env v)
   | .augAssign t op v => .augAssign (mlT pyOps env t) op (ml pyOps env v)
@@ -119,7 +119,7 @@ def specS (env : Env) : PyStmt → PyStmt
       .classDef name (mlL pyOps env bases) (mlL pyOps env kws)
         (specB (env.child .class_ (bindsB body)) body) (mlL pyOps env decos) tp
   | .unsupported k => .unsupported k
-def specB (env : Env) : List PyStmt → List PyStmt
+def specB (env : SEnv) : List PyStmt → List PyStmt
   | [] => []
   | s :: ss => specS env s :: specB env ss
 end
@@ -194,10 +194,10 @@ def plainName (id : Str) : Bool := !reservedNames.contains id
 /-- a load standing directly in scope `env`: not reserved, and — known finding
     C13-class-body-rebinding — not a name the class body itself binds (Python resolves those at
     run time: class namespace, then globals) -/
-def directOk (env : Env) (id : Str) : Bool :=
+def directOk (env : SEnv) (id : Str) : Bool :=
   plainName id && !(env.kind == .class_ && env.bound.contains id)
 
-def okItems (env : Env) : List (PyExpr × Option PyExpr) → Bool
+def okItems (env : SEnv) : List (PyExpr × Option PyExpr) → Bool
   | [] => true
   | (c, none) :: r => loadsOk (directOk env) plainName c && okItems env r
   | (c, some v) :: r => loadsOk (directOk env) plainName c && loadsOkT (directOk env) plainName v && okItems env r
@@ -205,7 +205,7 @@ def okItems (env : Env) : List (PyExpr × Option PyExpr) → Bool
 mutual
 /-- the statement is in the domain of the comparison theorem: loads as in `directOk`, and none
     of the statement forms whose regenerated text is rejected anyway (`global`, `except … as`) -/
-def okS (env : Env) : PyStmt → Bool
+def okS (env : SEnv) : PyStmt → Bool
   | .expr e => loadsOk (directOk env) plainName e
   | .assign ts v => loadsOkTL (directOk env) plainName ts && loadsOk (directOk env) plainName v
   | .augAssign t _ v => loadsOkT (directOk env) plainName t && loadsOk (directOk env) plainName v
@@ -237,7 +237,7 @@ def okS (env : Env) : PyStmt → Bool
         && loadsOkL (directOk env) plainName decos
         && okB (env.child .class_ (bindsB body)) body
   | .unsupported _ => true
-def okB (env : Env) : List PyStmt → Bool
+def okB (env : SEnv) : List PyStmt → Bool
   | [] => true
   | s :: ss => okS env s && okB env ss
 end
